@@ -213,6 +213,7 @@ class GateFactory(Modulator):
         return self.offset >= self.total_samples
 
     def next(self, samples):
+        samples = int(samples)
         token = self.input_factory.next(samples)
         lb = self.start_samples - self.offset
         ub = lb + self.duration_samples
@@ -340,6 +341,7 @@ class EnvelopeFactory(GateFactory):
         super().__init__(fs, start_time, duration, input_factory)
 
     def next(self, samples):
+        samples = int(samples)
         token = self.input_factory.next(samples)
         env = envelope(window=self.envelope, fs=self.fs,
                        duration=self.duration, rise_time=self.rise_time,
@@ -1052,6 +1054,7 @@ class ToneFactory(Carrier):
         self.offset = 0
 
     def next(self, samples):
+        samples = int(samples)
         # Note. At least for 5 msec tones it's faster to just compute the array
         # rather than cache the result.
         waveform = tone(self.fs, self.frequency, self.level, self.phase,
@@ -1149,6 +1152,7 @@ class SAMToneFactory(Carrier):
         self.offset = 0
 
     def next(self, samples):
+        samples = int(samples)
         # Note. At least for 5 msec tones it's faster to just compute the array
         # rather than cache the result.
         waveform = sam_tone(
@@ -1208,6 +1212,7 @@ class SquareWaveFactory(Carrier):
         self.offset = 0
 
     def next(self, samples):
+        samples = int(samples)
         waveform = np.zeros(samples)
         # Start of the cycle in progress, relative to this chunk (<= 0).
         o = -(self.offset % self.cycle_samples)
